@@ -126,5 +126,10 @@ void fb_invn_low(dig_t *c, const dig_t *a) {
 		}
 	}
 	/* Return g1. */
-	fb_copy(c, g1);
+	/* The cofactor has degree m exactly when a = 1: reduce it. */
+	if (fb_get_bit(g1, RLC_FB_BITS)) {
+		fb_poly_add(c, g1);
+	} else {
+		fb_copy(c, g1);
+	}
 }
